@@ -78,6 +78,18 @@ func init() {
 	delete(tokenValues["m:flat"].(map[string]interface{}), "")
 }
 
+// writePrior writes a value of the same kind as the token's (and sharing none of its content) with the same field selection
+func writePrior(b *boltz.TypedBucket, field, tok string, checker boltz.FieldChecker) {
+	switch tokenValues[tok].(type) {
+	case []string:
+		b.SetStringList(field, []string{"zz1", "a", "zz3", "zz4", "zz5", "zz6"}, checker)
+	case map[string]interface{}:
+		b.PutMap(field, map[string]interface{}{"zk": "zv", "m": map[string]interface{}{"zx": "zy"}, "n": "text"}, checker, true)
+	case []interface{}:
+		b.PutList(field, []interface{}{"p", int64(9), "q", map[string]interface{}{"zx": "zy"}, "r", "s", "t", "u"}, checker)
+	}
+}
+
 func write(b *boltz.TypedBucket, field, tok string, checker boltz.FieldChecker, salt int) {
 	switch v := tokenValues[tok].(type) {
 	case nil:
@@ -360,6 +372,10 @@ func bucketMain(args []string) error {
 				werr = db.Update(func(tx *bbolt.Tx) error {
 					tb := boltz.GetOrCreatePath(tx, "buckets", name)
 					for fi, f := range fields {
+						if idx%3 == 1 {
+							// the same field written twice in one transaction: the later write is the value (nothing of the earlier one stays)
+							writePrior(tb, f, st.Vals[f], checker)
+						}
 						write(tb, f, st.Vals[f], checker, idx+si+fi)
 					}
 					return tb.GetError()
